@@ -246,10 +246,26 @@ func (v *VLANAllocator) LoadFromStore(ctx context.Context, ntes []*NTE) error {
 	v.mu.Lock()
 	defer v.mu.Unlock()
 
+	var rejected []string
 	for _, nte := range ntes {
 		if nte.STag == 0 || nte.CTag == 0 {
 			continue
 		}
+
+		// A stored pair must lie in the configured ranges and must not
+		// belong to another NTE, otherwise two NTEs would share a pair
+		if nte.STag < v.config.STagRange.Start || nte.STag > v.config.STagRange.End ||
+			nte.CTag < v.config.CTagRange.Start || nte.CTag > v.config.CTagRange.End {
+			rejected = append(rejected, fmt.Sprintf("%s: %d/%d outside configured ranges", nte.ID, nte.STag, nte.CTag))
+			continue
+		}
+		if owner, used := v.sTagUsage[nte.STag][nte.CTag]; used && owner != nte.ID {
+			rejected = append(rejected, fmt.Sprintf("%s: %d/%d already allocated to %s", nte.ID, nte.STag, nte.CTag, owner))
+			continue
+		}
+
+		// Drop a different pair this NTE may already hold so it does not stay marked as used
+		v.releaseUnlocked(nte.ID)
 
 		alloc := &VLANAllocation{
 			STag:  nte.STag,
@@ -264,6 +280,9 @@ func (v *VLANAllocator) LoadFromStore(ctx context.Context, ntes []*NTE) error {
 		v.sTagUsage[nte.STag][nte.CTag] = nte.ID
 	}
 
+	if len(rejected) > 0 {
+		return fmt.Errorf("rejected %d stored VLAN allocations: %v", len(rejected), rejected)
+	}
 	return nil
 }
 
